@@ -288,6 +288,123 @@ def rewrite_inspect_err(text):
         n += 1
 
 
+STRLIT_RE = r'"(?:[^"\\\\]|\\\\.)*"'
+
+
+def _parse_str_arms(src, text, ob, cb):
+    """arms of `match .. { .. }` between ob and cb; returns list of (lits|None, binding|None, body)
+    or None if some arm is not a plain string-literal / `_` / identifier pattern"""
+    arms = []
+    i = ob + 1
+    while True:
+        i = rsitems.skip_ws_comments(src, i, cb)
+        if i >= cb:
+            break
+        arrow = None
+        j = i
+        while j < cb:
+            if src.mask[j]:
+                if text[j] in "([{":
+                    j = src.match_close(j)
+                elif text.startswith("=>", j):
+                    arrow = j
+                    break
+            j += 1
+        if arrow is None:
+            return None
+        pat = text[i:arrow].strip()
+        k = rsitems.skip_ws_comments(src, arrow + 2, cb)
+        if text[k] == "{":
+            e = src.match_close(k)
+            body = text[k:e + 1]
+            nxt = rsitems.skip_ws_comments(src, e + 1, cb)
+            if nxt < cb and text[nxt] == ",":
+                nxt += 1
+        else:
+            e = src.next_code(k, ",", cb)
+            if e < 0:
+                e = cb
+            body = "{ " + text[k:e].strip() + " }"
+            nxt = e + 1 if e < cb else cb
+        # strip comments inside the pattern
+        pat = " ".join(l.split("//")[0] for l in pat.split("\n")).strip()
+        if re.fullmatch(r"\|?\s*%s(\s*\|\s*%s)*" % (STRLIT_RE, STRLIT_RE), pat):
+            arms.append((re.findall(STRLIT_RE, pat), None, body))
+        elif pat == "_":
+            arms.append((None, None, body))
+        elif re.fullmatch(r"[a-z_][a-z0-9_]*", pat):
+            arms.append((None, pat, body))
+        else:
+            return None
+        i = nxt
+    return arms
+
+
+def rewrite_strmatch(text):
+    """R-strmatch: `match E { "a" | "b" => X, .. , _ => Z }` over string literals becomes
+    `{ let m_ = E; if m_ == "a" || m_ == "b" X else .. else Z }` and `matches!(E, "a" | "b")` becomes
+    `{ let m_ = E; m_ == "a" || m_ == "b" }`. Same semantics (first matching arm, literals compared
+    by string equality); needed because Verus gives string-literal patterns no meaning."""
+    n = 0
+    pos = 0
+    while True:
+        src = rsitems.Src(text)
+        found = None
+        for w, p in src.words(pos, len(text)):
+            if w == "match" or w == "matches!":
+                found = (w, p)
+                # try this occurrence
+                if w == "matches!":
+                    op = rsitems.skip_ws_comments(src, p + len(w), len(text))
+                    if text[op] != "(":
+                        continue
+                    cp = src.match_close(op)
+                    comma = src.next_code(op + 1, ",", cp)
+                    if comma < 0:
+                        continue
+                    pat = " ".join(l.split("//")[0] for l in text[comma + 1:cp].split("\n")).strip()
+                    if not re.fullmatch(r"\|?\s*%s(\s*\|\s*%s)*" % (STRLIT_RE, STRLIT_RE), pat):
+                        continue
+                    lits = re.findall(STRLIT_RE, pat)
+                    expr = text[op + 1:comma].strip()
+                    new = "{ let m_ = %s; %s }" % (expr, " || ".join("m_ == %s" % l for l in lits))
+                    text = text[:p] + new + text[cp + 1:]
+                    n += 1
+                    pos = p + 1
+                    break
+                else:
+                    ob = src.next_code(p + 5, "{", len(text))
+                    if ob < 0:
+                        continue
+                    cb = src.match_close(ob)
+                    arms = _parse_str_arms(src, text, ob, cb)
+                    if not arms or not any(a[0] for a in arms):
+                        continue
+                    expr = text[p + 5:ob].strip()
+                    parts = []
+                    closed = False
+                    for lits, bind, body in arms:
+                        if lits:
+                            parts.append("if %s %s" % (" || ".join("m_ == %s" % l for l in lits), body))
+                        elif bind:
+                            parts.append("{ let %s = m_; %s }" % (bind, body))
+                            closed = True
+                            break
+                        else:
+                            parts.append(body)
+                            closed = True
+                            break
+                    if not closed:
+                        continue      # non-exhaustive over strings cannot happen in Rust; be safe
+                    new = "{ let m_ = %s; %s }" % (expr, " else ".join(parts))
+                    text = text[:p] + new + text[cb + 1:]
+                    n += 1
+                    pos = p + 1
+                    break
+        else:
+            return text, n
+
+
 def strip_inner_attrs(text):
     """drop `#[...]` attributes inside a struct/enum body (field/variant attributes)"""
     src = rsitems.Src(text)
@@ -374,6 +491,7 @@ class Woven:
         self.preludes = []
         self.probes = []
         self.assumes = []
+        self.expects = []
 
     def add(self, text):
         for ln in text.split("\n"):
@@ -547,7 +665,7 @@ def expand(unit_path, twin=False, repo=None):
     repo = repo or REPO
     w = Woven()
     lines = open(unit_path).read().split("\n")
-    flags = {"f32": False, "fmt": False, "strlit": False, "inspect_err": False}
+    flags = {"f32": False, "fmt": False, "strlit": False, "inspect_err": False, "strmatch": False}
     FLAGS.clear()
     src_cache = {}
     i = 0
@@ -597,6 +715,33 @@ def expand(unit_path, twin=False, repo=None):
                     flags[f] = True
             FLAGS.update(flags)
             i += 1
+        elif d.startswith("expect "):
+            # //@expect FILE :: path <<<body text>>>: the function's body must be exactly this text
+            # (whitespace-normalised); justifies an R-inline rewrite elsewhere. Emits nothing.
+            mm = re.match(r"expect (.*?)<<<(.*)>>>$", d, re.S)
+            if not mm:
+                raise WeaveError("bad expect at %s:%d" % (unit_path, i + 1))
+            segs = mm.group(1).split("::")
+            file = segs[0].strip()
+            path = [x.strip() for x in segs[1:]]
+            fpath = os.path.join(repo, file)
+            if fpath not in src_cache:
+                if not os.path.exists(fpath):
+                    raise WeaveError("source file missing: %s" % file)
+                src_cache[fpath] = rsitems.Src(open(fpath).read())
+            src = src_cache[fpath]
+            try:
+                it = rsitems.locate(src, path)
+            except (LookupError, rsitems.ScanError) as e:
+                raise WeaveError("cannot locate %s :: %s (%s)" % (file, " :: ".join(path), e))
+            if it.body_open is None:
+                raise WeaveError("expect: %s has no body" % " :: ".join(path))
+            body = " ".join(src.text[it.body_open + 1:it.end - 1].split())
+            if body != " ".join(mm.group(2).split()):
+                raise WeaveError("expect: body of %s :: %s is `%s`, expected `%s` (an R-inline rewrite relies on it)"
+                                 % (file, " :: ".join(path), body[:80], mm.group(2)[:80]))
+            w.expects.append({"file": file, "path": " :: ".join(path), "body": body})
+            i += 1
         elif d.startswith("item "):
             mm = d[5:].split("::")
             file = mm[0].strip()
@@ -630,6 +775,10 @@ def expand(unit_path, twin=False, repo=None):
                 text, nrw = rewrite_inspect_err(text)
                 if nrw:
                     applied.append({"rule": "R-inspect-err", "count": nrw})
+            if flags.get("strmatch") and it.kind == "fn":
+                text, nrw = rewrite_strmatch(text)
+                if nrw:
+                    applied.append({"rule": "R-strmatch", "count": nrw})
             if flags["f32"]:
                 text, nrw = rewrite_f32(text)
                 if nrw:
